@@ -21,8 +21,9 @@ NI == Len(X[1])
 W == C.svd
 rk == Len(W.sv)
 Mag(M) == FMaxAbs(M) \div S + 1
-SvdOK == /\ rk >= 1 /\ \A i \in 1..rk : W.sv[i] > 64
-         /\ IsOrthonormalCols(W.U, 4 * NR + 8) /\ IsOrthonormalCols(W.V, 4 * NI + 8)
+\* a singular value that is tiny but above the code's own cut (1e-12 on eigenvalues) makes C^-1/2 huge: not decided here
+NearSingular == rk = 0 \/ \E i \in 1..rk : W.sv[i] <= 512
+SvdOK == /\ IsOrthonormalCols(W.U, 4 * NR + 8) /\ IsOrthonormalCols(W.V, 4 * NI + 8)
          /\ Within(FMatMul([i \in 1..NR |-> [j \in 1..rk |-> FMul(W.U[i][j], W.sv[j])]], FTr(W.V)), X, 8 * rk * (Mag(X) + 3) + 16)
 Ct == LET G == FMatMul(FTr(X), X)  B == FMatMul(W.V, FMatMul(FTr(W.U), Y))  BB == FMatMul(B, FTr(B)) IN
       [i \in 1..NI |-> [j \in 1..NI |-> (G[i][j] * C.a + BB[i][j] * (8 - C.a)) \div 8]]
@@ -41,6 +42,7 @@ StepClause(K, t) == LET s == Sel(t)  T == Table(K, s)  U == (1..NI) \ RangeOf(s)
 Final(K) == LET s == Sel(Len(Steps) + 1)  T == Table(K, s) IN
             IF C.table # <<>> /\ \E i \in 1..NI : FAbs(C.table[i] - T[i]) > Tol(K) THEN "get_distance-differs-from-true-minimum" ELSE "ok"
 Verdict == IF C.raised THEN <<"rejected", "valid-fit-raised">>
+           ELSE IF NearSingular THEN <<"inconclusive", "near-singular-input">>
            ELSE IF ~SvdOK THEN <<"badwitness", "svd">>
            ELSE LET K == Ct  bad == {t \in 1..Len(Steps) : StepClause(K, t) # "ok"} IN
                 IF bad # {} THEN <<"rejected", StepClause(K, SetMin(bad)), SetMin(bad)>>
